@@ -123,7 +123,7 @@ def getContent (c : Cache) (m : Msg) (strict : Bool) (fresh : Res) : Res × Cach
         | (.ok d, c') => (.ok d, c')
         | (.str, c') => if strict then (.verr, c') else (.ok raw, c')            -- "Invalid Content-Encoding"
         | (.verr, c') => if strict then (.verr, c') else (.ok raw, c')
-        | (r, c') => (r, c')                                                      -- TypeError escapes
+        | (_, c') => (.terr, c')            -- TypeError escapes (a decode call never yields None / nothing)
 
 /-- `Message.decode(strict)` -/
 def msgDecode (c : Cache) (m : Msg) (strict : Bool) (fresh : Res) : Res × Cache × Msg :=
@@ -383,5 +383,46 @@ def lenientHit (C : Codecs) (c : Cache) (v n : Bytes) : Bool :=
   match encHit c v n strictB with
   | some x => C.ref n x != some v
   | none => false
+
+/-! ### round-3 vocabulary: cache-free reading of a message, which ops can write a message -/
+
+/-- what `get_content(strict)` yields on message `m` in a process with NO history (no cache at all) -/
+def contentOf (C : Codecs) (m : Msg) (strict : Bool) : Res :=
+  match m.raw with
+  | none => .nil
+  | some raw =>
+    match m.ce with
+    | none => .ok raw
+    | some ce =>
+      if ce.isEmpty then .ok raw
+      else match uncachedDec C ce strictB raw with
+        | .ok d => .ok d
+        | .str => if strict then .verr else .ok raw
+        | .verr => if strict then .verr else .ok raw
+        | _ => .terr
+
+/-- `writes j op`: the op is a setter / `Message.decode` / `Message.encode` / mutator of message `j`.
+    Everything else (module-level `encoding.decode/encode`, any `get_content`, every op on the other message)
+    can reach message `j` only through the shared cache. -/
+def Op.writes (j : Bool) : Op → Bool
+  | .dec _ _ _ => false
+  | .enc _ _ _ => false
+  | .getContent _ _ => false
+  | .setContent i _ => i == j
+  | .mdecode i _ => i == j
+  | .mencode i _ => i == j
+  | .setRaw i _ => i == j
+  | .setCe i _ => i == j
+  | .setTe i _ => i == j
+  | .setCl i _ => i == j
+
+/-- `op` is a content assignment on message `i` that ran to completion in state `s`:
+    `set_content(bytes)` finished; `Message.decode` on a non-empty body finished; `Message.encode` on a present
+    body did not let a TypeError escape (it may report ValueError for an unknown coding — the body is stored then) -/
+def completesAssign (C : Codecs) (s : State) (i : Bool) : Op → Prop
+  | .setContent j (some v) => j = i ∧ (step C s (.setContent j (some v))).2 = .done
+  | .mdecode j st => j = i ∧ (∃ r, (s.msg i).raw = some r ∧ r.isEmpty = false) ∧ (step C s (.mdecode j st)).2 = .done
+  | .mencode j cd => j = i ∧ (∃ r, (s.msg i).raw = some r) ∧ (step C s (.mencode j cd)).2 ≠ .terr
+  | _ => False
 
 end MitmVerif.C31
